@@ -158,8 +158,12 @@ func c20LenKey(n int) string {
 		return "len=1..8"
 	case n <= 64:
 		return "len=9..64"
+	case n <= 1024:
+		return "len=65..1024"
+	case n <= 2048:
+		return "len=1025..2048"
 	}
-	return "len>64"
+	return "len>2048"
 }
 
 type c20Case struct {
@@ -591,6 +595,29 @@ func TestVerif_C20(t *testing.T) {
 				c20CheckShuffle(r, n, variant, ent)
 			}
 		}
+	}
+
+	// part 2b: sparse lengths around the encoding boundaries of the block counter floor(i/8) (128 = 2^7 ↔ i = 1024,
+	// 256 = 2^8 ↔ i = 2048; 16384 = 2^14 ↔ i = 131072): the control-relevant input of Shuffle is the length
+	for _, n := range []int{1023, 1024, 1025, 1026, 1027, 1028, 1029, 1030, 1100, 2047, 2048, 2049, 2050} {
+		if n <= maxLen {
+			continue
+		}
+		for ent := 0; ent < 10; ent++ {
+			idx++
+			if !r.Mine(idx) {
+				continue
+			}
+			r.Space(1)
+			c20CheckShuffle(r, n, 0, ent)
+		}
+	}
+	// one long case at the 2-byte boundary of a compact counter, thorough only: the real FisherYatesShuffle
+	// allocates O(n^2) (~34 GB of short-lived slices, ~45 CPU-s for this single case)
+	idx++
+	if r.Thorough() && r.Mine(idx) {
+		r.Space(1)
+		c20CheckShuffle(r, 131072+2, 0, 2)
 	}
 
 	// part 3: assignments for every slot of 3 epochs × 4 entropies × both parameter sets
